@@ -65,6 +65,9 @@ func main() {
 		for _, n := range closureInventory(pkgs) {
 			fmt.Println("closure\t" + n)
 		}
+		for _, n := range callerInventory(pkgs) {
+			fmt.Println("caller\t" + n)
+		}
 		return
 	}
 	if err == nil {
